@@ -118,6 +118,12 @@ def scenarios(thorough):
     for bad, tag in (("", "empty"), ("a,b,c\n1,2,3\n", "not-updown-list"), ("query,SNPs\nq0,A1T\n", "wrong-header")):
         add("bad-csv", "toprank", {"q.csv": bad}, args=["updown", "topranking", "-q", "@q.csv", "-t", "@t.fasta", "-r", "@ref.fa", "--size-total", "4"], tag="query-" + tag)
         add("bad-csv", "toprank", {"t.csv": bad}, args=["updown", "topranking", "-q", "@m.fasta", "-t", "@t.csv", "-r", "@ref.fa", "--size-total", "4"], tag="target-" + tag)
+    noq = "query,SNPs,ambiguities,SNPcount,ambcount\n"
+    trq = ["updown", "topranking", "-q", "@q0.csv", "-t", "@t.fasta", "-r", "@ref.fa", "--size-total", "4"]
+    add("unequal-rows", "toprank", {"q0.csv": noq, "t.fasta": fasta(corrupt(recs(prefix="t"), N - 1, "short"))}, args=trq, tag="no-query-rows")
+    add("non-iupac", "toprank", {"q0.csv": noq, "t.fasta": fasta(corrupt(recs(prefix="t"), 0, "badsym"))}, args=trq, tag="no-query-rows")
+    add("empty-fasta", "toprank", {"q0.csv": noq, "t.fasta": ""}, args=trq, tag="no-query-rows")
+    add("bad-csv", "toprank", {"q0.csv": noq, "t.csv": "a,b,c\n1,2,3\n"}, args=trq[:4] + ["-t", "@t.csv"] + trq[6:], tag="no-query-rows")
     L = len(REF)
     for cmd in ("toma", "topa"):
         for w, tag in ((["--start", "0"], "start0"), (["--start", str(L + 1)], "start>len"), (["--end", "0"], "end0"),
